@@ -52,6 +52,20 @@ def _func(tree, name, where):
     fs = [n for n in tree.body if isinstance(n, ast.FunctionDef) and n.name == name]
     if len(fs) != 1:
         raise TranslateError("%s: expected exactly one top-level def %s, found %d" % (where, name, len(fs)))
+    if fs[0].decorator_list:
+        raise TranslateError("%s.%s: the function is decorated" % (where, name))
+    # the name must not be bound a second time at module level (assignment, import, class)
+    for n in tree.body:
+        bound = []
+        if isinstance(n, (ast.Assign, ast.AugAssign, ast.AnnAssign)):
+            for t in (n.targets if isinstance(n, ast.Assign) else [n.target]):
+                bound += [x.id for x in ast.walk(t) if isinstance(x, ast.Name)]
+        elif isinstance(n, (ast.Import, ast.ImportFrom)):
+            bound += [(a.asname or a.name).split(".")[0] for a in n.names]
+        elif isinstance(n, ast.ClassDef):
+            bound.append(n.name)
+        if name in bound:
+            raise TranslateError("%s: the name %s is re-bound at module level (line %d)" % (where, name, n.lineno))
     return fs[0]
 
 
